@@ -54,6 +54,7 @@ func checkC09(ctx *Ctx, r *Report) {
 	c09FourthRound(ctx, r)
 	c08CollapsedUnionKeepsConstraints(ctx, r)
 	c09CueNumberConstraints(ctx, r)
+	c09CueConstraintsThroughReferences(ctx, r)
 	c09GoEnvelopeConstants(ctx, r)
 	c09PythonUnionCollectionBranches(ctx, r)
 	c16ThirdHunt(ctx, r)
@@ -1512,4 +1513,75 @@ func c09PythonUnionCollectionBranches(ctx *Ctx, r *Report) {
 		r.Undecided("anchor changed: python template \"unfold_builders\" has no branch for unions")
 	}
 	r.Count("union branches of the Python unfold template", 1)
+}
+
+// c09CueConstraintsThroughReferences: a field can take its bounds from a definition and add to them
+// (`#Pos & <10`, `#Name & strings.MaxRunes(5)`) or give them a default (`#Pos | *5`): the definition is then written as
+// a *reference* among the conjuncts. (a) The bounds of a number are read from the printed text of the value: the text
+// printed is the one of the evaluated value (`v.Eval()`), in which references are replaced by what they stand for.
+// (b) The constraints of a string are read conjunct by conjunct: a conjunct that is a reference is dereferenced and its
+// own constraints collected.
+func c09CueConstraintsThroughReferences(ctx *Ctx, r *Report) {
+	p := ctx.Pkg("internal/simplecue")
+	if p == nil {
+		r.Undecided("anchor lost: internal/simplecue")
+		return
+	}
+	info := p.TypesInfo
+	if fn := ctx.LookupMethod("internal/simplecue", "generator", "declareNumberConstraints"); fn == nil {
+		r.Undecided("anchor lost: simplecue.generator.declareNumberConstraints")
+	} else if fd, _ := ctx.DeclOf(fn); fd != nil {
+		evaluated, found := false, false
+		ast.Inspect(fd.Body, func(m ast.Node) bool {
+			c, ok := m.(*ast.CallExpr)
+			if !ok || len(c.Args) == 0 {
+				return true
+			}
+			f := callee(info, c)
+			if f == nil || f.Pkg() == nil || !strings.HasSuffix(f.Pkg().Path(), "cue/format") || f.Name() != "Node" {
+				return true
+			}
+			found = true
+			if strings.Contains(exprString(c.Args[0]), ".Eval()") {
+				evaluated = true
+			}
+			return true
+		})
+		if !found {
+			r.Undecided("anchor changed: declareNumberConstraints no longer prints the value with cue/format")
+		} else {
+			r.Count("texts the CUE number constraints are read from", 1)
+			r.Check(evaluated, "frontier/cue-constraints-through-references", "simplecue.declareNumberConstraints prints the evaluated value", fd.Pos(), "format.Node is given v.Eval().Syntax()",
+				"the bounds of a number are read from the text of the value as written: `#Pos & <10` is printed as a reference and a braced `<10`, `#Pos | *5` as a reference — the `>0` of #Pos is never seen, Validate() accepts -3")
+		}
+	}
+	if fn := ctx.LookupMethod("internal/simplecue", "generator", "declareStringConstraints"); fn == nil {
+		r.Undecided("anchor lost: simplecue.generator.declareStringConstraints")
+	} else if fd, _ := ctx.DeclOf(fn); fd != nil {
+		inLoop, single := false, false
+		ast.Inspect(fd.Body, func(m ast.Node) bool {
+			switch x := m.(type) {
+			case *ast.RangeStmt:
+				ast.Inspect(x.Body, func(k ast.Node) bool {
+					if c, ok := k.(*ast.CallExpr); ok {
+						if f := callee(info, c); f != nil && f.Name() == "Dereference" {
+							inLoop = true
+						}
+					}
+					return true
+				})
+				return false
+			case *ast.CallExpr:
+				if f := callee(info, x); f != nil && f.Name() == "Dereference" {
+					single = true
+				}
+			}
+			return true
+		})
+		r.Count("places where string constraints meet a reference", 2)
+		r.Check(inLoop, "frontier/cue-constraints-through-references", "simplecue.declareStringConstraints follows a reference among the conjuncts", fd.Pos(), "a conjunct that is a reference is dereferenced",
+			"the conjuncts that are not calls are skipped, references included: `#Name & strings.MaxRunes(5)` keeps MaxRunes(5) and loses the MinRunes(2) of #Name — Validate() accepts \"a\"")
+		r.Check(single, "frontier/cue-constraints-through-references", "simplecue.declareStringConstraints follows a reference standing alone", fd.Pos(), "a value that is only a reference (once its default is removed) is dereferenced",
+			"`#Name | *\"abc\"` is, once the default is removed, the reference #Name alone: nothing is read from it and the string has no constraint at all")
+	}
 }
